@@ -51,6 +51,23 @@ class LinCT2(Lin2):
         return (sum(w * x for w, x in zip(self.ws, unmasked2(n))) + 3 * int(c[0]) + 7 * int(c[1]) + 5 * int(t)) % self.m
 
 
+class Aff1(Lin1):
+    """pure affine rule (sum(w*x) + b) mod m: the all-zero neighbourhood maps to b mod m, not 0"""
+    def __init__(self, ws, b, m):
+        self.ws, self.b, self.m = ws, b, m
+
+    def __call__(self, n, c, t):
+        return (sum(w * x for w, x in zip(self.ws, _vals1(n))) + self.b) % self.m
+
+
+class Aff2(Lin2):
+    def __init__(self, ws, b, m):
+        self.ws, self.b, self.m = ws, b, m
+
+    def __call__(self, n, c, t):
+        return (sum(w * x for w, x in zip(self.ws, unmasked2(n))) + self.b) % self.m
+
+
 class Script:
     """the i-th call returns vs[i] (0 when exhausted)"""
     def __init__(self, vs):
@@ -87,6 +104,8 @@ def make_rule(spec, dim=1):
     fam = spec['fam']
     if fam == 'script':
         return Script(list(spec['vs']))
+    if fam == 'aff':
+        return (Aff1 if dim == 1 else Aff2)(list(spec['ws']), spec['b'], spec['m'])
     cls = {('lin', 1): Lin1, ('linct', 1): LinCT1, ('lin', 2): Lin2, ('linct', 2): LinCT2}[(fam, dim)]
     return cls(list(spec['ws']), spec['m'])
 
@@ -96,6 +115,8 @@ def coq_rule_spec(spec):
     from harness.driver import czlist, cz
     if spec['fam'] == 'script':
         return '(RScript %s)' % czlist(spec['vs'])
+    if spec['fam'] == 'aff':
+        return '(RAff %s %s %s)' % (czlist(spec['ws']), cz(spec['b']), cz(spec['m']))
     return '(%s %s %s)' % ('RLin' if spec['fam'] == 'lin' else 'RLinCT', czlist(spec['ws']), cz(spec['m']))
 
 
